@@ -426,6 +426,45 @@ func poseidonDrv(raw json.RawMessage, resp *drv.Response) error {
 				resp.Violate("c10/tovec/not-injective", fmt.Sprintf("chunks of %v recompose to %v", h, rec), map[string]any{"h": h.String()})
 			}
 		}
+		// "the conversion is a function": if the decomposition of the hash is supplied by the prover (a hint), the bits of h + r must
+		// not be accepted in place of the bits of h.  (gnark's full-width api.ToBinary has no hint on the test engine; then nothing is
+		// substituted and the case counts as trivial.)
+		lim := new(big.Int).Sub(pow2(254), bigR)
+		for _, h := range []*big.Int{big.NewInt(0), big.NewInt(1), new(big.Int).Sub(lim, one), drv.RandBelow(rng, lim), drv.RandBelow(rng, lim)} {
+			applied := false
+			cfg := &engine.Config{Mode: modeOf(req.Mode)}
+			cfg.Strategy = func(c *engine.HintCall) []*big.Int {
+				if len(c.Honest) < 200 || len(c.Inputs) == 0 {
+					return nil
+				}
+				for _, b := range c.Honest {
+					if b.Sign() != 0 && b.Cmp(one) != 0 {
+						return nil
+					}
+				}
+				y := new(big.Int).Add(c.Inputs[len(c.Inputs)-1], bigR)
+				if y.BitLen() > len(c.Honest) {
+					return nil
+				}
+				out := make([]*big.Int, len(c.Honest))
+				for i := range out {
+					out[i] = big.NewInt(int64(y.Bit(i)))
+				}
+				applied = true
+				return out
+			}
+			var got []*big.Int
+			err := hc.Run(cfg, []*big.Int{h}, func(api frontend.API, iv []frontend.Variable) error {
+				for _, x := range poseidon.NewBN254Chip(api).ToVec(iv[0]) {
+					got = append(got, new(big.Int).Set(engine.ToBig(x.Limb)))
+				}
+				return nil
+			})
+			resp.Count("tovec-unique/"+h.String(), !applied)
+			if applied && err == nil {
+				resp.Violate("c10/tovec/second-decomposition", fmt.Sprintf("ToVec(%v): the bits of h + r supplied for the prover-chosen decomposition satisfy every constraint; the chunks become %v instead of %v", h, strsOf(got), strsOf(ref.BnToVec(h))), map[string]any{"h": h.String()})
+			}
+		}
 		resp.Sample(map[string]any{"tovec_of_r_minus_1": strsOf(ref.BnToVec(new(big.Int).Sub(bigR, one)))})
 	default:
 		return fmt.Errorf("unknown part %q", req.Part)
